@@ -78,6 +78,49 @@ def extrapolate(kti: int, explicit_level: int, second: int, closed_at: int) -> b
     return True
 
 
+def extrapolate_collide(kti: int, level: int, after: int, second: int) -> bool:
+    """
+    As `extrapolate`, with an EXPLICIT type that carries a name extrapolation would generate (basetype__<key of `level`>)
+    but another template (a second hierarchy of the same basetype), configured before (after=0) or after (after=1) the
+    extrapolated type: the explicit type keeps its template and its place, the name is not generated twice.
+    pre: 0 <= kti < 4 and 1 <= level < L and 0 <= after <= 1 and 0 <= second < L
+    post: _
+    """
+    oi, bi = OI, BI
+    keys = ORDERS[oi][:L]
+    base = BASETYPES[bi]
+    kt = KEYTYPES[kti]
+    kt = keys[-1] if kt == "LAST" else (base if kt == "BASE" else kt)
+    name = base + SEP + kt
+    clash = base + SEP + keys[level - 1]
+    if clash == name:
+        return True
+    clash_tpl = _tpl(keys[:level - 1] + ["zz", keys[level - 1]])
+    templates = {}
+    if not after:
+        templates[clash] = clash_tpl
+    templates[name] = _tpl(keys)
+    to_ext = [name]
+    if second:
+        okeys = keys[:second] + ["z1", "z2"]
+        templates["other" + SEP + "z2"] = _tpl(okeys)
+        to_ext.append("other" + SEP + "z2")
+    if after:
+        templates[clash] = clash_tpl
+    got = conf_util.extrapolate_templates(dict(templates), list(to_ext))
+    want = extrapolate_ref(dict(templates), list(to_ext), SEP)
+    if list(got.keys()) != list(want.keys()):
+        return fail("extrapolated-type-names-or-order")
+    if list(got.values()) != list(want.values()):
+        return fail("extrapolated-templates")
+    if [k for k in got if k in templates] != list(templates):
+        return fail("explicit-order-not-kept")
+    for k in templates:
+        if got[k] != templates[k]:
+            return fail("explicit-template-changed")
+    return True
+
+
 SELECTORS = ["__", "a", "", "shot__", "b__f", "zz"]
 NAMES = ["a__f", "shot__file", "b__f", "ab", "p", "shot"]
 
